@@ -361,29 +361,58 @@ func (c *Ctx) eapSuccessFailureRule(r *Report, prefix string) {
 		if !ok || cond.Op != token.EQL {
 			continue
 		}
-		k, ok := cond.Y.(*ssa.Const)
+		lenSide, kSide := cond.X, cond.Y
+		if _, isK := lenSide.(*ssa.Const); isK {
+			lenSide, kSide = kSide, lenSide
+		}
+		k, ok := kSide.(*ssa.Const)
 		if !ok {
 			continue
 		}
 		if kv, _ := constInt64(k.Value); kv != 4 {
 			continue
 		}
-		// cond.X must be the length slot Uint16(b[2:4])
+		// the compared value must be the length slot: Uint16(b[2:4]), or the same two octets joined by shifts
+		for {
+			cv, ok := lenSide.(*ssa.Convert)
+			if !ok {
+				break
+			}
+			from, ok1 := typeBits(cv.X.Type())
+			to, ok2 := typeBits(cv.Type())
+			if !ok1 || !ok2 || from > to || !isUnsignedType(cv.X.Type()) {
+				break // only value-preserving widenings are looked through
+			}
+			lenSide = cv.X
+		}
 		x := newBVCtx(c, f)
-		if id, isW := x.wireLeafOf(cond.X); !isW || !x.leaves[id].Off.isConst() || x.leaves[id].Off.C != 2 || x.leaves[id].Octets != 2 {
+		id, isW := x.wireLeafOf(lenSide)
+		if !isW {
+			id, isW = x.wireGroupOf(lenSide)
+		}
+		if !isW || !x.leaves[id].Off.isConst() || x.leaves[id].Off.C != 2 || x.leaves[id].Octets != 2 || paramIndex(um, x.leaves[id].Root) != 1 {
 			continue
 		}
 		if ret, ok := b.Succs[0].Instrs[len(b.Succs[0].Instrs)-1].(*ssa.Return); ok && isNilConst(ret.Results[0]) {
-			// every load of b[4..] is in blocks dominated by the other successor
+			// every load of octet 4 and beyond (directly or through a re-slicing of b) is in blocks dominated by
+			// the other successor
 			all := true
 			for _, bb := range um.Blocks {
 				for _, ins := range bb.Instrs {
-					if v, ok := ins.(ssa.Value); ok {
-						if bs, idx, isEl := isElemLoad(v); isEl && paramIndex(um, bs) == 1 && idx >= 4 {
-							if !b.Succs[1].Dominates(bb) {
-								all = false
-							}
-						}
+					v, ok := ins.(ssa.Value)
+					if !ok {
+						continue
+					}
+					bs, idx, isEl := isElemLoadAny(v)
+					if !isEl || !isByteSlice(bs.Type()) {
+						continue
+					}
+					root, lo, _, _ := f.relSpan(bs)
+					if paramIndex(um, root) != 1 {
+						continue
+					}
+					if _, hi := f.bounds(lo.add(f.LFOf(idx), 1), nil); hi >= 4 && !b.Succs[1].Dominates(bb) {
+						all = false
 					}
 				}
 			}
@@ -588,6 +617,12 @@ func (c *Ctx) akaEmitsAllRule(r *Report, rule string) {
 							nAppend++
 						}
 					}
+					// keys[next] = key; next++ into a slice made with one slot per key
+					if st, ok := i2.(*ssa.Store); ok {
+						if a := indexedCollect(loop, st); a != nil && madeWithLenOf(a, rg.X) {
+							nAppend++
+						}
+					}
 				}
 			}
 			if nIf != 1 || nAppend != 1 {
@@ -608,6 +643,37 @@ func (c *Ctx) akaEmitsAllRule(r *Report, rule string) {
 		}
 	}
 	r.Check(okL, rule, "(*eap.EapAkaPrime).Marshal looks the keys up in the attribute map", c.Pos(ma.Pos()), "attributes[key]", "Marshal does not read the attributes of the collected keys from the map")
+}
+
+// madeWithLenOf: every value stored into the slice variable a is make([]T, len(m)) for the ranged map m (the same
+// field load class), so that the k-th key has slot k and no slot is left over.
+func madeWithLenOf(a *ssa.Alloc, m ssa.Value) bool {
+	_, fld, isF := fieldLoad(m)
+	n := 0
+	for _, ref := range *a.Referrers() {
+		st, ok := ref.(*ssa.Store)
+		if !ok || st.Addr != ssa.Value(a) {
+			continue
+		}
+		n++
+		mk, ok := st.Val.(*ssa.MakeSlice)
+		if !ok {
+			return false
+		}
+		call, ok := mk.Len.(*ssa.Call)
+		if !ok {
+			return false
+		}
+		bi, ok := call.Call.Value.(*ssa.Builtin)
+		if !ok || bi.Name() != "len" {
+			return false
+		}
+		_, f2, isF2 := fieldLoad(call.Call.Args[0])
+		if !isF || !isF2 || f2 != fld {
+			return false
+		}
+	}
+	return n == 1
 }
 
 // akaValueIdentityRule: the setter owns a copy of exactly the given octets and the getter returns that field.
@@ -673,7 +739,6 @@ func (c *Ctx) akaValueIdentityRule(r *Report, prefix string) {
 		r.Check(ok, ruleV, "(*eap.EapAkaPrimeAttr).GetValue", c.Pos(gv.Pos()), "returns the value field", "GetValue does not return the stored value")
 	}
 }
-
 
 // blockReaches: b is reachable from a by at least one edge.
 func blockReaches(a, b *ssa.BasicBlock) bool {
